@@ -449,6 +449,14 @@ class Gen:
                     acc=['rw', 'r', 'rw'][k % 3]) for k, nm in enumerate(names)]
         self.add({'kind': 'bitfield', 'name': self.name('S'), 'base': 64, 'debug': True, 'fields': fields}, 'F8', 'accept',
                  ['hygiene', 'field-names'])
+        # field names that look like accessor names: the getter of `set_point` is `set_point()`, its setters `with_set_point` / `set_set_point`
+        names2 = ['set_point', 'with_level', 'set_', 'with_', 'get_x', 'is_set', 'new_value', 'build_id', 'partial', 'default_value', 'zero',
+                  'set_set', 'with_with', 'raw', 'value_raw', 'unset', 'setup', 'within']
+        for accs in (['rw', 'r', 'rw'], ['r', 'rw', 'w']):
+            fields = [F(nm, {'k': 'bool'} if k % 3 == 0 else u(2), [('s', 3 * k)] if k % 3 == 0 else [('r', 3 * k, 3 * k + 1)],
+                        acc=accs[k % 3]) for k, nm in enumerate(names2)]
+            self.add({'kind': 'bitfield', 'name': self.name('S'), 'base': 64, 'default': {'form': 'lit', 'value': 0}, 'fields': fields}, 'F8',
+                     'accept', ['hygiene', 'accessor-like-field-names'])
         arr = [F(nm, u(2), [('r', 8 * k, 8 * k + 1)], count=2, stride=4) for k, nm in enumerate(['f', 'value', 'index', 'temp', 'result', 'mask'])]
         self.add({'kind': 'bitfield', 'name': self.name('S'), 'base': 64, 'default': {'form': 'lit', 'value': 5}, 'fields': arr}, 'F8', 'accept',
                  ['hygiene', 'array-field-names'])
